@@ -185,7 +185,7 @@ def execute(ctx, cases, corr):
             continue
         if c.impl != c.model:
             corr["model_disagreements"].append(c)
-        if c.expect_no_panic and (c.impl in ("panic", "abort") or c.impl.startswith(("nondeterministic", "invalid-utf8", "clone-differs", "err-")) or
+        if c.expect_no_panic and (c.impl in ("panic", "abort") or c.impl.startswith(("nondeterministic", "invalid-utf8", "clone-differs", "err-", "take-rest:")) or
                                   (c.kind == "sweep" and " panic=0 " not in c.impl)):
             # the property itself (C04): whatever the model says, this outcome is a violation
             c.oracle = "returns Ok or Err (no panic / abort / hang), the same every time"
@@ -559,6 +559,25 @@ def cases_c17(ctx, boost):
 
 
 # =============================================================================== C07
+def extreme_val(g, t, v, full=True):
+    """`v` with every bounded byte / text string at its capacity (or empty) and every list at its full length"""
+    r = g.s.res(t)
+    if v is None:
+        return None
+    if r.get("leaf") == "bytes" and r.get("cap") is not None:
+        return ('x', g.rng.randbytes(r["cap"] if full else 0))
+    if r.get("leaf") == "str" and r.get("cap") is not None:
+        return ('s', b"m" * (r["cap"] if full else 0))
+    if "vec" in r and v[0] == 'l':
+        xs = [extreme_val(g, r["elem"], x, full) for x in v[1]]
+        if full and xs:
+            xs = [xs[i % len(xs)] for i in range(r["vec"])]
+        return ('l', xs if full else [])
+    if "fields" in r and v[0] == 'r':
+        return ('r', [extreme_val(g, f["ty"], x, full) if f["mode"]["m"] not in ("trunc", "skipLong") else x for f, x in zip(r["fields"], v[1])])
+    return v
+
+
 def cases_c07(ctx, boost):
     out = []
     for cfg in ctx.cfgs(("000", "111")):
@@ -574,6 +593,11 @@ def cases_c07(ctx, boost):
                 v = g.rand_val(t, p_opt=1.0)
                 slots = [s if (m >> i) & 1 else None for i, s in enumerate(v[1])]
                 vals.append(show(('r', slots)))
+                # ... with every output at its largest and at its smallest size
+                for full in (True, False):
+                    e = extreme_val(g, t, ('r', slots), full)
+                    if g.val_buildable(t, e):
+                        vals.append(show(e))
             return vals
 
         def line(fl, mask, count, acd, ext):
@@ -1230,6 +1254,27 @@ def deep_item(g, depth):
     return it
 
 
+def type_at(g, t, path):
+    r = g.s.res(t)
+    if not path:
+        return t
+    if "vec" in r or "filtered" in r:
+        return type_at(g, r["elem"], path[1:])
+    return type_at(g, r["fields"][path[0]]["ty"], path[1:])
+
+
+def all_text_keys(ctx):
+    """every member name of every text-keyed structure, over all configurations"""
+    ks = set()
+    for sj in ctx.data["schemas"].values():
+        for t in sj["types"].values():
+            if "text" in t:
+                for f in t.get("fields", []):
+                    ks.add(f["key"])
+                    ks.update(f.get("aliases", []))
+    return ks
+
+
 def cases_c06(ctx, boost):
     out = []
     names = ["transports", "credBlob", "minPinLength", "credProps", "hmac-secret-mc", "prf", "zzz", "a", "Rk", "idx", "name2"]
@@ -1266,6 +1311,24 @@ def cases_c06(ctx, boost):
                                 return ('map', ents)
                             it = item_at(g, t, base, hp, ins)
                             c = Case("req", cfg, f"req {cfg} {cb:02x}{casegen.enc_item_ext(it).hex()}", tag=f"{variant} extra at {'/'.join(map(str, hp))}")
+                            c.same_as = plain
+                            out.append(c)
+                    # member names of every text-keyed structure of every configuration (a member gated out of this
+                    # configuration is an unknown member here), with values of every major type
+                    hr = g.s.res(type_at(g, t, hp))
+                    own = {k[1].decode('utf-8', 'replace') for k, _ in host_item[0][1] if k[0] == 'text'}
+                    for f_ in hr.get("fields", []):
+                        own.add(f_["key"])
+                        own.update(f_.get("aliases", []))
+                    for name in sorted(all_text_keys(ctx) - own):
+                        for val in (('u', 1), ('text', b"x"), ('arr', [casegen.TRUE]), ('map', [(('u', 1), casegen.NULL)]), casegen.TRUE, casegen.NULL,
+                                    ('bytes', b"\x01\x02")):
+                            def ins1(old, name=name, val=val):
+                                ents = list(old[1])
+                                ents.insert(rng.randint(0, len(ents)), (('text', name.encode()), val))
+                                return ('map', ents)
+                            it = item_at(g, t, base, hp, ins1)
+                            c = Case("req", cfg, f"req {cfg} {cb:02x}{casegen.enc_item_ext(it).hex()}", tag=f"{variant} foreign member {name} at {'/'.join(map(str, hp))}")
                             c.same_as = plain
                             out.append(c)
                     # several unknown members at once; and the same in the LAST entry of a list whose kept part is full
@@ -1407,6 +1470,23 @@ def cases_c05(ctx, boost):
                         for alt in OTHER_TYPES:
                             if alt[0] != it[0]:
                                 add(item_replace(seed, pth, lambda x, alt=alt: alt), "other type")
+    # messages at and beyond the largest CTAPHID message (nothing in the request types bounds the total length):
+    # well-formed, truncated, lacking a required member, under an unassigned command byte
+    for cfg in ctx.cfgs(("000", "111")):
+        g = ctx.gen(cfg, salt=5)
+        for variant, payload in ctx.data["schemas"][cfg]["variants"]["request_variants"]:
+            if not payload or payload == "vendor":
+                continue
+            cb = CMD_BYTE[variant][0]
+            for tag, body in request_messages(g, variant, payload, 0, subsets=False):
+                if not tag.startswith("total length"):
+                    continue
+                for nm, m in (("whole", body), ("last byte cut", body[:-1]), ("cut in the middle", body[:len(body) // 2]), ("cut after the map head", body[:1]),
+                              ("trailing byte", body + b"\x00"), ("first member's key changed", body[:1] + bytes([0x1f]) + body[2:]),
+                              ("map head promises one more", bytes([body[0] + 1]) + body[1:])):
+                    out.append(Case("req", cfg, f"req {cfg} {cb:02x}{m.hex()}", tag=f"{variant} {tag}: {nm}"))
+                for b in (0x00, 0x03, 0x05, 0x0d, 0x3f, 0x80, 0xff):
+                    out.append(Case("req", cfg, f"req {cfg} {b:02x}{body.hex()}", tag=f"unassigned command byte, {tag}"))
     # each bounded member pushed across its limit (shared with C12)
     for c in cases_c12(ctx, boost):
         c.tag = "limit: " + c.tag
@@ -1498,6 +1578,10 @@ def cases_c02(ctx, boost):
         for variant, payload in sj["variants"]["response_variants"]:
             if payload is None:
                 out.append(Case("resp", cfg, f"resp {cfg} {variant} - 64 -", tag="parameter-less"))
+                # a reused buffer: whatever the previous exchange left in it (an error status, a whole response)
+                for prior in ("7f", "2e", "01", "00", "ff" * 64, "39a0", "00a10102", "a07f" * 4):
+                    for cap in (64, 8192):
+                        out.append(Case("resp", cfg, f"resp {cfg} {variant} - {cap} {prior}", tag="parameter-less, reused buffer"))
                 continue
             t = {"named": payload}
             r = g.s.res(t)
@@ -1524,7 +1608,8 @@ def cases_c02(ctx, boost):
                         out.append(Case("resp", cfg, f"resp {cfg} {variant} {show(v)} 8192 -", tag=f"{variant} subset"))
                         if attempt == 0 and len(sub) <= 1:
                             # the buffer's previous content (a reused buffer) does not matter
-                            out.append(Case("resp", cfg, f"resp {cfg} {variant} {show(v)} 8192 {'a07f' * 4}", tag=f"{variant} reused buffer"))
+                            for prior in ('a07f' * 4, "7f", "2e", "ff" * 40):
+                                out.append(Case("resp", cfg, f"resp {cfg} {variant} {show(v)} 8192 {prior}", tag=f"{variant} reused buffer"))
                         if variant == "GetAssertion":
                             out.append(Case("resp", cfg, f"resp {cfg} GetNextAssertion {show(v)} 8192 -", tag="GetNextAssertion"))
                         break
@@ -1759,8 +1844,12 @@ def cases_c04(ctx, boost):
         allb = [m for _, m in msgs]
         for variant, m in msgs:
             out.append(np(Case("req", cfg, f"req {cfg} {m.hex()}", tag=f"{variant} well-formed")))
-            step = 1 if (ctx.tier == "thorough" or len(m) < 400) else 3
-            for i in range(0, len(m), step):
+            if len(m) <= 2000:
+                positions = range(0, len(m), 1 if (ctx.tier == "thorough" or len(m) < 400) else 3)
+            else:
+                # a maximal-size message: its structure sits at the two ends, the middle is one long string
+                positions = sorted(set(range(0, 64)) | set(range(len(m) - 24, len(m))) | set(range(64, len(m) - 24, len(m) // 100)))
+            for i in positions:
                 out.append(np(Case("req", cfg, f"req {cfg} {m[:i].hex() or '-'}", tag="truncate")))
                 fl = bytearray(m); fl[i] ^= 1 << rng.randrange(8)
                 out.append(np(Case("req", cfg, f"req {cfg} {bytes(fl).hex()}", tag="flip")))
@@ -1880,6 +1969,16 @@ def arb_inputs(rng, tier, boost):
                         for _ in range(rng.randrange(0, 12)))
         out.append(("length word + multi-byte text", word(n) + body + tail))
         out.append(("bool + length word + text", bytes([rng.randrange(256)]) + word(n) + body + tail))
+    # the length window ends inside a character, and what follows is NOT that character's continuation
+    for n in list(range(1, 34)) + [63, 64, 65, 127, 128, 129, 200, 255]:
+        for ch in scal[2:]:
+            for keep in range(1, len(ch)):
+                if keep > n:
+                    continue
+                for follow in (b"A", b"\xc3A", b"\xff", b"", ch):
+                    body = b"a" * (n - keep) + ch[:keep] + follow + b"zz"
+                    for lead in (b"", b"\x01"):
+                        out.append(("window ends inside a character", lead + word(n) + body + bytes(8)))
     for _ in range(80 * boost):
         # many small draws: bools / counts / selectors / short texts
         parts = []
@@ -1911,6 +2010,22 @@ def cases_c19(ctx, boost):
                 sel2 = ((rng.randrange(11) * 2 ** 32 + 10) // 11).to_bytes(4, "little") if ty == "authenticator::Request" else b""
                 end = bytes([rng.randrange(0, 40)]) * rng.randrange(0, 3)          # slice lengths are read from the end
                 out.append(np(Case("arb", "000", f"arb {ty} {(sel + sel2 + b + end).hex()}", tag=f"{ty}: variant-steered {tag}", feats=feats)))
+    # a trailing text member that takes the rest of the input (`arbitrary_take_rest`): every variant, k bytes for the
+    # members before it, then several hundred bytes of well-formed multi-byte text
+    ks = range(0, 160) if (ctx.tier == "thorough" or boost > 1) else range(0, 96)
+    for v in range(11):
+        sel = ((v * 2 ** 32 + 10) // 11).to_bytes(4, "little")
+        for k in ks:
+            # members before it: all absent / zero with the last flag set; all present; mixed
+            fills = [bytes(max(k - 1, 0)) + b"\x01" * min(k, 1), b"\x01" * k, bytes(rng.choice([1, 0xff, 3, 0x81, 0]) for _ in range(k)), b"\xff" * k]
+            for fi, fill in enumerate(fills):
+                ch = rng.choice(["é", "語", "😀", "ß€"]).encode()
+                pre = b"a" * rng.choice([0, 0, 252, 250, 127, 31])
+                body = sel + fill + pre + ch * (420 // len(ch))
+                out.append(np(Case("arb", "000", f"arb ctap2::Request {body.hex()}", tag="ctap2::Request: variant-steered, members then long multi-byte text", feats=feats)))
+                if (k + fi) % 3 == 0:
+                    out.append(np(Case("arb", "000", f"arb authenticator::Request ffffffff{body.hex()}",
+                                       tag="authenticator::Request: variant-steered, members then long multi-byte text", feats=feats)))
     if ctx.tier == "thorough":
         for cfg in ("111",):
             for tag, b in inputs[::3]:
